@@ -29,5 +29,10 @@ int vf_replay(const std::string &u, vf_inputs &in)
     if (u == "p_div_v" || u == "p_div" || u == "p_div_oa" || u == "p_op_div") { int r = returns_normally(u, a, b, &o);
         if (b % REF_P == 0) { printf("division by an operand congruent to zero: the call %s\n", r ? "RETURNED a value" : "did not return"); return r ? 1 : 0; }
         printf("div(%llu, %llu) -> %llu, result*b mod p = %llu, a mod p = %llu\n", (unsigned long long)a, (unsigned long long)b, (unsigned long long)o, (unsigned long long)ref_mul(o, b), (unsigned long long)(a % REF_P)); return (r && ref_mul(o, b) == a % REF_P) ? 0 : 1; }
+    if (u == "inv_frame" || u == "inv_step") {   // representation independence and a*inv(a) == 1 on the verifier's operand and on its other representation
+        uint64_t xs[4] = {a, a % REF_P, (a % REF_P) + ((a % REF_P) < 0xFFFFFFFFULL ? REF_P : 0), 0xFFFFFFFF00000002ULL}; int bad = 0;
+        for (int k = 0; k < 4; k++) { uint64_t x = xs[k]; if (x % REF_P == 0) continue; int r = returns_normally("p_inv_v", x, 0, &o);
+            printf("inv(%llu) -> %llu, x*inv(x) mod p = %llu\n", (unsigned long long)x, (unsigned long long)o, (unsigned long long)ref_mul(x, o)); if (!r || ref_mul(x, o) != 1) bad = 1; }
+        return bad; }
     return 3;
 }
